@@ -25,6 +25,7 @@ type dtLeaf struct {
 	Effect string
 	Tags   []string
 	Block  *ssa.BasicBlock
+	From   *ssa.BasicBlock // predecessor on the explored path (to resolve phis in Block)
 }
 
 type dtConfig struct {
@@ -123,6 +124,22 @@ func decisionTable(start *ssa.BasicBlock, cfg dtConfig) []dtLeaf {
 					}
 				}
 			}
+		case *ssa.Call:
+			// a pure byte predicate of the repository applied to the variable: use its own table
+			if g := staticCallee(c.Common()); g != nil && g.Blocks != nil && len(g.Params) == 1 && len(c.Common().Args) == 1 && strip(c.Common().Args[0]) == cfg.Var &&
+				g.Pkg != nil && strings.HasPrefix(g.Pkg.Pkg.Path(), modulePath) && depth < 4 {
+				sub := decisionTable(g.Blocks[0], dtConfig{Var: g.Params[0], Dom: s, Leaf: func(*ssa.BasicBlock) (string, bool) { return "", false }, Max: 500})
+				okSub := true
+				for _, l := range sub {
+					if l.Effect != "return:true" && l.Effect != "return:false" {
+						okSub = false
+					}
+				}
+				if okSub {
+					t := effectSet(sub, "return:true", nil)
+					return t, s.Minus(t), true
+				}
+			}
 		case *ssa.Phi:
 			// a boolean && / || value: resolved by the edge the path took into its block
 			for k := len(path) - 1; k >= 1; k-- {
@@ -147,7 +164,7 @@ func decisionTable(start *ssa.BasicBlock, cfg dtConfig) []dtLeaf {
 		}
 		steps++
 		if steps > cfg.Max || depth > 200 {
-			leaves = append(leaves, dtLeaf{s, "undecided:exploration limit", tags, b})
+			leaves = append(leaves, dtLeaf{Set: s, Effect: "undecided:exploration limit", Tags: tags, Block: b, From: from})
 			return
 		}
 		k := key{b, from, s.String(), strings.Join(tags, "&") + pathKey(prev)}
@@ -156,7 +173,7 @@ func decisionTable(start *ssa.BasicBlock, cfg dtConfig) []dtLeaf {
 		}
 		seen[k] = true
 		if eff, ok := cfg.Leaf(b); ok {
-			leaves = append(leaves, dtLeaf{s, eff, tags, b})
+			leaves = append(leaves, dtLeaf{Set: s, Effect: eff, Tags: tags, Block: b, From: from})
 			return
 		}
 		switch last := b.Instrs[len(b.Instrs)-1].(type) {
@@ -174,7 +191,7 @@ func decisionTable(start *ssa.BasicBlock, cfg dtConfig) []dtLeaf {
 			}
 			// does the condition depend on the variable in a way we do not model?
 			if dependsOn(last.Cond, cfg.Var, 0) {
-				leaves = append(leaves, dtLeaf{s, "undecided:condition on the variable that is not a comparison with a constant: " + last.Cond.String(), tags, b})
+				leaves = append(leaves, dtLeaf{Set: s, Effect: "undecided:condition on the variable that is not a comparison with a constant: " + last.Cond.String(), Tags: tags, Block: b, From: from})
 				return
 			}
 			tag := ""
@@ -190,19 +207,19 @@ func decisionTable(start *ssa.BasicBlock, cfg dtConfig) []dtLeaf {
 			if len(last.Results) == 1 {
 				if t, f, ok := split(last.Results[0], s, path, 0); ok {
 					if !t.Empty() {
-						leaves = append(leaves, dtLeaf{t, "return:true", tags, b})
+						leaves = append(leaves, dtLeaf{Set: t, Effect: "return:true", Tags: tags, Block: b, From: from})
 					}
 					if !f.Empty() {
-						leaves = append(leaves, dtLeaf{f, "return:false", tags, b})
+						leaves = append(leaves, dtLeaf{Set: f, Effect: "return:false", Tags: tags, Block: b, From: from})
 					}
 					return
 				}
 			}
-			leaves = append(leaves, dtLeaf{s, "return", tags, b})
+			leaves = append(leaves, dtLeaf{Set: s, Effect: "return", Tags: tags, Block: b, From: from})
 		case *ssa.Panic:
-			leaves = append(leaves, dtLeaf{s, "panic", tags, b})
+			leaves = append(leaves, dtLeaf{Set: s, Effect: "panic", Tags: tags, Block: b, From: from})
 		default:
-			leaves = append(leaves, dtLeaf{s, "undecided:terminator", tags, b})
+			leaves = append(leaves, dtLeaf{Set: s, Effect: "undecided:terminator", Tags: tags, Block: b, From: from})
 		}
 	}
 	walk(start, nil, cfg.Dom, nil, 0)
